@@ -1,6 +1,7 @@
 package main
 
 import (
+	"go/types"
 	"fmt"
 	"go/constant"
 	"strings"
@@ -181,6 +182,63 @@ func runC12(c *Ctx) {
 			})
 			c.Check(ok, "O3", "DOM", funcKey(snap)+": only requests for known nodes enter the map", instrPos(in), trunc(d, 120), "a BindRequest for an unknown node enters the snapshot map")
 		}
+	}
+
+	if snap := c.P.Func("pkg/scheduler/cache/cluster_info", "ClusterInfo", "snapshotBindRequests"); snap != nil {
+		// … and every other request is: an iteration that does not file the request is one whose node is unknown.
+		// (A request stays relevant until it is deleted — also a Succeeded one: the pod informer may not yet show
+		// the pod as bound, and without the request the pod is Pending again and its node free.)
+		for _, in := range instrsIn(snap, func(in ssa.Instruction) bool { _, ok := in.(*ssa.MapUpdate); return ok }) {
+			if loopHeaderOf(in.Block()) == nil {
+				continue
+			}
+			ok, path := everyIterationPasses(in, func(x ssa.Instruction) bool { return x == in }, func(from, to *ssa.BasicBlock) bool {
+				return !fx.edgeEstablishes(from, to, func(f Fact) bool {
+					return !f.Pol && f.T.Op == "extract" && f.T.Name == "1" && strings.Contains(f.T.String(), ".Spec.SelectedNode")
+				})
+			})
+			c.Check(ok, "O3", "MPT", funcKey(snap)+": every BindRequest for a known node enters the snapshot", instrPos(in), "an iteration skips the request only when its node is unknown",
+				"a BindRequest whose node exists can be left out of the snapshot ("+pathStr(path)+"), e.g. by its phase: the pod it was created for is taken for Pending and the resources it holds on the node are handed out again")
+		}
+	}
+
+	// ---- O5 (ext.): the binder leaves a request alone only when there is nothing left to do: not found, being deleted,
+	// or Succeeded. A request in phase Failed is NOT final for the binder — UpdateStatus sets Failed after every failed
+	// attempt, also while retries remain, and the scheduler keeps the pod Binding until attempts ≥ backoffLimit.
+	if rec := c.P.Func(pkgBinderCtl, "BindRequestReconciler", "Reconcile"); rec != nil {
+		var dfr ssa.Instruction
+		for _, in := range instrsIn(rec, func(x ssa.Instruction) bool { _, ok := x.(*ssa.Defer); return ok }) {
+			dfr = in
+		}
+		ne := 0
+		for _, b := range rec.Blocks {
+			ret, isRet := b.Instrs[len(b.Instrs)-1].(*ssa.Return)
+			if !isRet || dfr == nil || dominatesInstr(dfr, ret) {
+				continue
+			}
+			// an exit taken before the status defer is installed: a no-op exit
+			ne++
+			ok := fx.allPathsSatisfy(ret, func(s FactSet) bool {
+				_, a := hasFact(s, func(f Fact) bool {
+					return f.T.Op == "bin" && strings.HasSuffix(f.T.Args[0].String(), "DeletionTimestamp") && f.T.Args[1].isNilConst() && ((f.T.Name == "==" && !f.Pol) || (f.T.Name == "!=" && f.Pol))
+				})
+				_, b2 := hasFact(s, func(f Fact) bool {
+					return f.Pol && f.T.Op == "bin" && f.T.Name == "==" && strings.HasSuffix(f.T.Args[0].String(), ".Status.Phase") && strings.Contains(f.T.Args[1].String(), "Succeeded")
+				})
+				_, g := hasFact(s, func(f Fact) bool {
+					// the fetch of the request failed
+					if f.T.Op != "bin" || len(f.T.Args) != 2 || !f.T.Args[1].isNilConst() || !((f.T.Name == "!=" && f.Pol) || (f.T.Name == "==" && !f.Pol)) {
+						return false
+					}
+					v := f.T.Args[0].V
+					return v != nil && types.Identical(v.Type(), types.Universe.Lookup("error").Type())
+				})
+				return a || b2 || g
+			})
+			c.Check(ok, "O5", "RET", fmt.Sprintf("%s: no-op exit (block %d) only for a missing, deleted or Succeeded request", funcKey(rec), b.Index), instrPos(ret), "an error is returned (retried) ∨ DeletionTimestamp ≠ nil ∨ Phase == Succeeded",
+				"the binder can leave a BindRequest untouched although it is neither gone, being deleted nor Succeeded (e.g. in phase Failed with retries left): it is never retried, never becomes terminal for the scheduler and the pod stays Binding with its resources charged")
+		}
+		c.Floor("O5", "RET no-op exits of Reconcile", ne, 2)
 	}
 
 	// ---- O4: the binder persists what it counts
